@@ -490,7 +490,7 @@ def run(ctx):
     cases += _random_cases(rng, randoms)
     ctx.evaluations = len(cases)
     _canary(ctx)
-    for sample in _validate_batches(ctx, cases, 150000):
+    for sample in _validate_batches(ctx, cases, 80000):
         ctx.sample(sample)
     ctx.exhaustive = True
     ctx.rule = ("TLC enumerates every domain string up to the stated length over a representative alphabet (every class of "
